@@ -4,6 +4,7 @@
      coq/PivotGen.v      the pivot search and pivot policy of p?gstrf_pivotL (4 precisions)
      coq/UstackGen.v     the two-ended user stack of p?memory.c: ?user_malloc, ?user_free (4 precisions)
      coq/SchedGen.v      the panel scheduler pxgstrf_scheduler (one source file for all precisions)
+     coq/SchedInitGen.v  the initial state: pxgstrf_relax_snode, queue_init, EnqueueRelaxSnode, ParallelInit (gen_init)
    The tie theorems (generated definition = hand-written model) live in the hand-written coq/*Tie.v files.
    A piece that cannot be translated is left out of the generated file with the reason in a comment: its tie theorem then
    fails to compile, which the checks report as a broken obligation."""
@@ -403,6 +404,232 @@ def gen_sched():
     return ok
 
 
+# ---------------------------------------------------------------------------------------------------
+# the INITIAL state of the scheduler: pxgstrf_relax_snode (pxgstrf_relax_snode.c) and ParallelInit with its helpers queue_init and
+# EnqueueRelaxSnode (pxgstrf_synch.c; pthread build, SPLIT_TOP defined in the file, no DOMAINS, no PROFILE, no PREDICT_OPT)
+INIT_OPT = "superlumt_options"
+INIT_RLX = "pxgstrf_relax"
+# allocation functions: (unit of the argument, fill): intCalloc zero-fills; the contents of intMalloc / superlu_malloc memory are
+# indeterminate in C: every such entry holds the value of the parameter `junk` of the generated function
+INIT_ALLOC = {"intCalloc": ("count", "0"), "intMalloc": ("count", "junk"), "superlu_malloc": ("bytes", "junk")}
+INIT_IGNORE_CALLS = {"superlu_free", "pthread_mutex_init", "fprintf", "sprintf", "printf", "fflush"}
+INIT_ABORT = {"superlu_abort_and_exit", "exit", "abort"}
+# (path, gallina binder, kind)
+INIT_SH_MEM = [
+    (SCHED_SH + ".pan_status[].type",    "pan_type",     "array"),
+    (SCHED_SH + ".pan_status[].state",   "pan_state",    "array"),
+    (SCHED_SH + ".pan_status[].size",    "pan_size",     "array"),
+    (SCHED_SH + ".pan_status[].ukids",   "pan_ukids",    "array"),
+    (SCHED_SH + ".fb_cols[]",            "fb_cols",      "array"),
+    (SCHED_SH + ".taskq.queue[]",        "queue",        "array"),
+    (SCHED_SH + ".taskq.head",           "head",         "cell"),
+    (SCHED_SH + ".taskq.tail",           "tail",         "cell"),
+    (SCHED_SH + ".taskq.count",          "count",        "cell"),
+    (SCHED_SH + ".tasks_remain",         "tasks_remain", "cell"),
+    (SCHED_SH + ".num_splits",           "num_splits",   "cell"),
+    (SCHED_SH + ".spin_locks[]",         "spin_locks",   "array"),
+]
+INIT_Q = [SCHED_SH + ".taskq.queue[]", SCHED_SH + ".taskq.head", SCHED_SH + ".taskq.tail", SCHED_SH + ".taskq.count"]
+INIT_ENQ_W = [SCHED_SH + ".taskq.queue[]", SCHED_SH + ".taskq.tail", SCHED_SH + ".taskq.count", SCHED_SH + ".tasks_remain"]
+
+
+def _gty(kind):
+    return "list Z" if kind == "array" else "Z"
+
+
+def _params_of(fn):
+    return [c.get("name") for c in fn.get("inner", []) if c.get("kind") == "ParmVarDecl"]
+
+
+def _emit(out, tr, gname, params, rty, term, cfile, fname):
+    out.append("(* %s : %s *)" % (os.path.basename(cfile), fname))
+    for l in tr.lifted:
+        out.append("(* state %s *)" % ", ".join(l[2]))
+        out.append(l[1])
+    out.append("Definition %s %s : %s :=\n%s.\n" % (gname, " ".join("(%s : %s)" % b for b in params), rty, term))
+
+
+def _translate(fn, cfg, final):
+    body = [c for c in fn["inner"] if c.get("kind") == "CompoundStmt"][0]
+    tr = c2gal.Tr(cfg)
+    tr.number(body)
+    term = tr.seq(body.get("inner", []), dict(cfg["inputs"]), lambda e: final(tr, e))
+    return tr, term
+
+
+def gen_init():
+    out = ["(* GENERATED on every run by tools/gen_trans.py (translator tools/c2gal_sched.py, clang AST, pthread build, built WITHOUT",
+           "   -DSLU_MT_VERIF; SPLIT_TOP is defined in pxgstrf_synch.c; no DOMAINS, no PROFILE, no PREDICT_OPT, PRNTlevel 0) from",
+           "   pxgstrf_relax_snode of %s/pxgstrf_relax_snode.c and queue_init, EnqueueRelaxSnode, ParallelInit of" % SRC,
+           "   %s/pxgstrf_synch.c -- do not edit." % SRC,
+           "   Arrays are lists read with nthZ and written with updZ (SchedModel.v: total, default 0 / no effect out of range); int_t",
+           "   arithmetic is arithmetic in Z (/ is Z.quot); enums are compared as integers.  Distinct arrays / fields do not overlap.",
+           "   etr = superlumt_options->etree[], panel_size / relax = superlumt_options->panel_size / ->relax; rfcol / rsize = the fields",
+           "   fcol / size of pxgstrf_relax[] (allocated by the caller); pan_type / pan_state / pan_size / pan_ukids = the fields of",
+           "   pxgstrf_shared->pan_status[]; queue, head, tail, count = the fields of pxgstrf_shared->taskq.",
+           "   ALLOCATION: `p = intCalloc(len)` gives the arrays under p the value `repeat 0 (Z.to_nat len)`; memory from intMalloc /",
+           "   SUPERLU_MALLOC (contents indeterminate in C) is `repeat junk (Z.to_nat len)` with the parameter junk; for SUPERLU_MALLOC the",
+           "   argument must be `len * sizeof(element type)`.  The mutex array lu_locks is opaque: its allocation and the",
+           "   pthread_mutex_init calls are dropped.  Stores to the statistics array Gstat->panel_histo[] are dropped (it is never read).",
+           "   Loops that are not of the shape `for (i = a; i < b; ++i)` without break (the two `for (..; ..; )` loops without increment,",
+           "   the two search loops with break) and while loops are Fixpoints over fuel; an inner loop takes the fuel left to the outer",
+           "   one; None = the fuel ran out.  ParallelInit: Some Aborted = SUPERLU_ABORT was reached (queue_init fails for n < 1).",
+           "   Calls of queue_init / EnqueueRelaxSnode in ParallelInit are calls of gen_queue_init / gen_EnqueueRelaxSnode, translated",
+           "   from their own C definitions for the objects &pxgstrf_shared->taskq, pxgstrf_relax, pxgstrf_shared (the translator checks",
+           "   that the actual arguments are these objects). *)",
+           "Require Import ZArith List Bool.", "From SLU Require Import Consts C2GalLib SchedModel.", "Local Open Scope Z_scope.", "Local Open Scope bool_scope.", ""]
+    ok = 0
+    base = {"ignore_calls": INIT_IGNORE_CALLS, "abort_calls": INIT_ABORT, "alloc": INIT_ALLOC, "general_for": True, "chained_assign": True,
+            "local_temps": True, "dedupe_loops": True, "fuel": "fuel", "on_fuel": lambda tr, env: "None"}
+
+    # ---------------- pxgstrf_relax_snode
+    gname = "gen_pxgstrf_relax_snode"
+    cfile = os.path.join(SRC, "pxgstrf_relax_snode.c")
+    try:
+        fn = c2gal.load_function(cfile, "pxgstrf_relax_snode", incdir=SRC)
+        if _params_of(fn) != ["n", INIT_OPT, INIT_RLX]:
+            raise Unsupported("unexpected parameter list %s" % _params_of(fn))
+        memt = [(INIT_OPT + ".etree[]", "etr", "array", True), (INIT_OPT + ".relax", "relax", "cell", True),
+                (INIT_RLX + "[].fcol", "rfcol", "array", False), (INIT_RLX + "[].size", "rsize", "array", False),
+                ("desc[]", "desc", "array", False)]
+        mem = {p: (g, kind, ro) for (p, g, kind, ro) in memt}
+        inputs = {p: (g, "L" if kind == "array" else "Z") for (p, g, kind, ro) in memt if p != "desc[]"}
+        inputs["n"] = ("n", "Z")
+        params = [("n", "Z"), ("etr", "list Z"), ("relax", "Z"), ("rfcol", "list Z"), ("rsize", "list Z"), ("fuel", "nat")]
+        outs = [INIT_RLX + "[].fcol", INIT_RLX + "[].size"]
+
+        def result(tr, env):
+            return "Some (%s)" % ", ".join(env[o][0] for o in outs)
+
+        def on_return(tr, env, val):
+            if val is not None:
+                raise Unsupported("the routine returns a value")
+            return result(tr, env)
+        cfg = dict(base, inputs=inputs, pointers={INIT_OPT: INIT_OPT, INIT_RLX: INIT_RLX}, mem=mem, on_return=on_return,
+                   on_abort=lambda tr, env: "None", lift_loops=gname, params=params,
+                   state_order=c2gal.decl_order(fn) + [p for (p, _, _, _) in memt])
+        tr, term = _translate(fn, cfg, result)
+        _emit(out, tr, gname, params, "option (list Z * list Z)", term, cfile, "pxgstrf_relax_snode")
+        ok += 1
+    except Unsupported as e:
+        out.append("(* %s NOT TRANSLATED: %s *)\n" % (gname, str(e).replace("*)", "* )")))
+
+    # ---------------- queue_init, EnqueueRelaxSnode, ParallelInit
+    cfile = os.path.join(SRC, "pxgstrf_synch.c")
+    shmem = {p: (g, kind, False) for (p, g, kind) in INIT_SH_MEM}
+    rlxmem = {INIT_RLX + "[].fcol": ("rfcol", "array", True), INIT_RLX + "[].size": ("rsize", "array", True)}
+    fun_calls = {}
+
+    gname = "gen_queue_init"
+    try:
+        fn = c2gal.load_function(cfile, "queue_init", incdir=SRC)
+        if _params_of(fn) != ["q", "n"]:
+            raise Unsupported("unexpected parameter list %s" % _params_of(fn))
+        mem = {p: shmem[p] for p in INIT_Q}
+        inputs = {p: (mem[p][0], "L" if mem[p][1] == "array" else "Z") for p in INIT_Q}
+        inputs["n"] = ("n", "Z")
+        params = [("n", "Z")] + [(mem[p][0], _gty(mem[p][1])) for p in INIT_Q] + [("junk", "Z")]
+
+        def on_return_q(tr, env, val):
+            if val is None:
+                raise Unsupported("queue_init returns no value")
+            return "(%s)" % ", ".join([tr.toZ(val)] + [env[p][0] for p in INIT_Q])
+
+        def final_q(tr, env):
+            raise Unsupported("queue_init can reach its end without a return")
+        cfg = dict(base, inputs=inputs, pointers={"q": SCHED_SH + ".taskq"}, mem=mem, on_return=on_return_q,
+                   on_abort=lambda tr, env: (_ for _ in ()).throw(Unsupported("queue_init can abort")), lift_loops=gname, params=params,
+                   state_order=c2gal.decl_order(fn) + INIT_Q)
+        tr, term = _translate(fn, cfg, final_q)
+        if tr.lifted and any("while" in l[0] for l in tr.lifted):
+            raise Unsupported("queue_init has a loop over fuel")
+        _emit(out, tr, gname, params, " * ".join(["Z"] + [_gty(mem[p][1]) for p in INIT_Q]), term, cfile, "queue_init")
+        fun_calls["queue_init"] = {"gname": gname, "args": [("ptr", SCHED_SH + ".taskq"), ("val",)], "reads": list(INIT_Q),
+                                   "writes": list(INIT_Q), "ret": True, "extra": ["junk"]}
+        ok += 1
+    except Unsupported as e:
+        out.append("(* %s NOT TRANSLATED: %s *)\n" % (gname, str(e).replace("*)", "* )")))
+
+    gname = "gen_EnqueueRelaxSnode"
+    try:
+        fn = c2gal.load_function(cfile, "EnqueueRelaxSnode", incdir=SRC)
+        if _params_of(fn) != ["q", "n", INIT_RLX, SCHED_SH]:
+            raise Unsupported("unexpected parameter list %s" % _params_of(fn))
+        mem = dict(rlxmem)
+        mem.update({p: shmem[p] for p in INIT_ENQ_W})
+        reads = list(rlxmem) + INIT_ENQ_W
+        inputs = {p: (mem[p][0], "L" if mem[p][1] == "array" else "Z") for p in reads}
+        inputs["n"] = ("n", "Z")
+        params = [("n", "Z")] + [(mem[p][0], _gty(mem[p][1])) for p in reads]
+
+        def on_return_e(tr, env, val):
+            if val is None:
+                raise Unsupported("EnqueueRelaxSnode returns no value")
+            return "(%s)" % ", ".join([tr.toZ(val)] + [env[p][0] for p in INIT_ENQ_W])
+
+        def final_e(tr, env):
+            raise Unsupported("EnqueueRelaxSnode can reach its end without a return")
+        cfg = dict(base, inputs=inputs, pointers={"q": SCHED_SH + ".taskq", INIT_RLX: INIT_RLX, SCHED_SH: SCHED_SH}, mem=mem,
+                   on_return=on_return_e, on_abort=lambda tr, env: (_ for _ in ()).throw(Unsupported("EnqueueRelaxSnode can abort")),
+                   lift_loops=gname, params=params, state_order=c2gal.decl_order(fn) + reads)
+        tr, term = _translate(fn, cfg, final_e)
+        if any("while" in l[0] for l in tr.lifted):
+            raise Unsupported("EnqueueRelaxSnode has a loop over fuel")
+        _emit(out, tr, gname, params, " * ".join(["Z"] + [_gty(mem[p][1]) for p in INIT_ENQ_W]), term, cfile, "EnqueueRelaxSnode")
+        fun_calls["EnqueueRelaxSnode"] = {"gname": gname, "args": [("ptr", SCHED_SH + ".taskq"), ("val",), ("ptr", INIT_RLX), ("ptr", SCHED_SH)],
+                                          "reads": reads, "writes": list(INIT_ENQ_W), "ret": True}
+        ok += 1
+    except Unsupported as e:
+        out.append("(* %s NOT TRANSLATED: %s *)\n" % (gname, str(e).replace("*)", "* )")))
+
+    gname = "gen_ParallelInit"
+    try:
+        fn = c2gal.load_function(cfile, "ParallelInit", incdir=SRC)
+        if _params_of(fn) != ["n", INIT_RLX, INIT_OPT, SCHED_SH]:
+            raise Unsupported("unexpected parameter list %s" % _params_of(fn))
+        for f in ("queue_init", "EnqueueRelaxSnode"):
+            if f not in fun_calls:
+                raise Unsupported("%s, which it calls, was not translated" % f)
+        optmem = {INIT_OPT + ".etree[]": ("etr", "array", True), INIT_OPT + ".panel_size": ("panel_size", "cell", True),
+                  INIT_OPT + ".relax": ("relax", "cell", True)}
+        mem = dict(optmem)
+        mem.update(rlxmem)
+        mem.update(shmem)
+        inputs = {p: (g, "L" if kind == "array" else "Z") for p, (g, kind, ro) in list(optmem.items()) + list(rlxmem.items())}
+        inputs.update({p: (shmem[p][0] + "0", "L" if shmem[p][1] == "array" else "Z") for p in INIT_Q})   # taskq on entry
+        inputs["n"] = ("n", "Z")
+        params = [("n", "Z"), ("etr", "list Z"), ("panel_size", "Z"), ("relax", "Z"), ("rfcol", "list Z"), ("rsize", "list Z")] + \
+                 [(shmem[p][0] + "0", _gty(shmem[p][1])) for p in INIT_Q] + [("junk", "Z"), ("fuel", "nat")]
+        outs = [p for (p, _, _) in INIT_SH_MEM]
+
+        def result_p(tr, env):
+            try:
+                return "Some (Returned (%s))" % ", ".join(env[o][0] for o in outs)
+            except KeyError as e:
+                raise Unsupported("%s has no value at the return" % e)
+
+        def on_return_p(tr, env, val):
+            if val is None:
+                raise Unsupported("ParallelInit returns no value")
+            return result_p(tr, env)
+
+        def final_p(tr, env):
+            raise Unsupported("ParallelInit can reach its end without a return")
+        cfg = dict(base, inputs=inputs, pointers={INIT_OPT: INIT_OPT, INIT_RLX: INIT_RLX, SCHED_SH: SCHED_SH}, mem=mem,
+                   on_return=on_return_p, on_abort=lambda tr, env: "Some Aborted", lift_loops=gname, params=params,
+                   fun_calls=fun_calls, ignore_alloc={SCHED_SH + ".lu_locks"}, ignore_mem={SCHED_SH + ".Gstat.panel_histo[]"},
+                   state_order=c2gal.decl_order(fn) + list(mem))
+        tr, term = _translate(fn, cfg, final_p)
+        _emit(out, tr, gname, params, "option (outcome (%s))" % " * ".join(_gty(k) for (_, _, k) in INIT_SH_MEM), term, cfile, "ParallelInit")
+        ok += 1
+    except Unsupported as e:
+        out.append("(* %s NOT TRANSLATED: %s *)\n" % (gname, str(e).replace("*)", "* )")))
+    write_if_changed(os.path.join(COQ, "SchedInitGen.v"), "\n".join(out) + "\n")
+    return ok
+
+
 if __name__ == "__main__":
     n = gen_sched()
     print("gen_trans: SchedGen.v %s" % n)
+    n = gen_init()
+    print("gen_trans: SchedInitGen.v %s/4" % n)
